@@ -150,7 +150,9 @@ type FakeMaster struct {
 	// ReconcileBare: reconciliation answers are built the way the master builds the statuses it generates itself: no
 	// executor id, no labels, no uuid (the optional fields an executor fills in).
 	ReconcileBare bool
-	Log           func(kind string, seq int64, data interface{})
+	// ReconcileDelay: the answers to a RECONCILE call are sent this much later (a busy master)
+	ReconcileDelay time.Duration
+	Log            func(kind string, seq int64, data interface{})
 }
 
 func NewFakeMaster(agents []*Agent, clock *int64) *FakeMaster {
@@ -650,6 +652,9 @@ func (m *FakeMaster) kill(taskID string, plan KillPlan) {
 }
 
 func (m *FakeMaster) reconcile() {
+	if d := m.ReconcileDelay; d > 0 {
+		time.Sleep(d)
+	}
 	m.mu.Lock()
 	ts := []*SimTask{}
 	for _, id := range m.order {
